@@ -60,12 +60,15 @@ def load_section_plugins(entry_point_group: str) -> Tuple[SectionPlugin]:
         plugin.section: plugin
         for plugin in map(SectionPlugin.load, get_entrypoints(entry_point_group))
     }
+    # constraints naming plugins that are not installed are ignored
     dependencies: Dict[str, Set[str]] = {
-        plugin.section: set(plugin.after) for plugin in plugins.values()
+        plugin.section: {after for after in plugin.after if after in plugins}
+        for plugin in plugins.values()
     }
     for plugin in plugins.values():
         for before in plugin.before:
-            dependencies[before].add(plugin.section)
+            if before in plugins:
+                dependencies[before].add(plugin.section)
     return tuple(
         plugins[plugin_name]
         for plugin_name in toposort_flatten(dependencies, sort=False)
